@@ -1626,6 +1626,9 @@ func (v *Verifier) doAlloc(st *State, x *ssa.Alloc) Value {
 	switch u := elemT.Underlying().(type) {
 	case *types.Struct:
 		r := v.env.allocStruct(st, elemT, x.Comment)
+		if isBufferType(elemT) {
+			v.zeroBuffer(st, r)
+		}
 		return Value{T: r, Sort: "Int", GoT: x.Type()}
 	case *types.Array:
 		// backing array for a slice
